@@ -203,7 +203,8 @@ let node_tuple nd = (fam_i nd.n_family, hex_of_bytes nd.n_addr, int_of_z nd.n_po
 let show_node (f, a, p, t) = Printf.sprintf "%d:%s:%d:%d" f a p t
 let show_nodes l = "[" ^ String.concat "," (List.map show_node l) ^ "]"
 
-let label_count name = List.length (List.filter (fun l -> l <> "") (String.split_on_char '.' name))
+(* ares_name_label_cnt: dots + 1, on the candidate string (which keeps a trailing dot) *)
+let label_count name = 1 + List.length (List.filter (fun c -> c = '.') (List.init (String.length name) (String.get name)))
 
 let () =
   let cases = read_lines Sys.argv.(1) in
@@ -299,7 +300,14 @@ let () =
             let rounds = List.map (fun g ->
                 let os = List.stable_sort (fun (p1, _) (p2, _) -> compare p1 p2) (List.map outcome g) in
                 { r_arrivals = List.map snd os;
-                  r_single_label = (match g with t :: _ -> label_count t.qname = 1 | [] -> false) }) (group r.txs) in
+                  r_single_label = (match g with
+                      | t :: _ ->
+                        (* the candidate that is the name itself keeps the caller's trailing dot *)
+                        let cand = if String.length name > 0 && name.[String.length name - 1] = '.'
+                                      && String.lowercase_ascii (String.sub name 0 (String.length name - 1)) = String.lowercase_ascii t.qname
+                          then name else t.qname in
+                        label_count cand = 1
+                      | [] -> false) }) (group r.txs) in
             (* query cache on (cases without search domains: the only candidate is the name itself):
                a sub-query that was not transmitted is answered from the cache, TTLs aged *)
             let lname = String.lowercase_ascii (nodot name) in
